@@ -576,7 +576,7 @@ func writeReplay(c *Ctx, dir, prop, id, why string, r *Result, out *runOut) (str
 			}
 			if fe != nil {
 				mf := filepath.Join(d, "query_model.smt2")
-				_ = os.WriteFile(mf, []byte(fe.query(r.Obl, true)), 0o644)
+				_ = os.WriteFile(mf, []byte(fe.queryPart(r.Obl, partOf(r), true)), 0o644)
 				_, text, _ := runSolver("z3-new", mf, 20, 0)
 				if len(text) > 200000 {
 					text = text[:200000]
@@ -605,4 +605,11 @@ func truncate(s string, n int) string {
 		return s[:n] + "..."
 	}
 	return s
+}
+
+func partOf(r *Result) int {
+	if len(r.Obl.Parts) > 1 {
+		return r.Part
+	}
+	return -1
 }
